@@ -1,15 +1,43 @@
 // Sequential correspondence harness for Session / SessionWriter (C02, C03, C11, C13): runs operation scripts on
 // the REAL classes and prints every OutputStream::write call (with call boundaries) and every ConsumeResult.
-#include <binlog/Session.hpp>
-#include <binlog/SessionWriter.hpp>
-
+//
+// Injection (`@` prefix): an op marked `@` is not executed in its turn but AT THE FIRST MUTEX UNLOCK performed inside the next
+// unmarked op (on behalf of another thread that was waiting for the session mutex).  As long as an operation holds the mutex
+// for its whole body that unlock is its last action and the run equals the sequential one `host; injected…`; a body that gives
+// the mutex up in the middle lets the injected operations in at that point — the real code then executes an interleaving no
+// sequential script can produce.  The mutex is observed by token renaming (`mutex` -> a std::mutex wrapper with a hook), the
+// binlog headers are unchanged.
+#include <algorithm>
+#include <atomic>
 #include <cstdint>
+#include <deque>
+#include <functional>
 #include <iostream>
 #include <map>
 #include <memory>
+#include <mutex>
 #include <sstream>
 #include <string>
+#include <utility>
 #include <vector>
+
+static std::function<void()> g_after_unlock;
+
+namespace std {
+class inj_mutex
+{
+  std::mutex _m;
+public:
+  void lock() { _m.lock(); }
+  bool try_lock() { return _m.try_lock(); }
+  void unlock() { _m.unlock(); if (g_after_unlock) { g_after_unlock(); } }
+};
+} // namespace std
+
+#define mutex inj_mutex
+#include <binlog/Session.hpp>
+#include <binlog/SessionWriter.hpp>
+#undef mutex
 
 namespace {
 
@@ -117,10 +145,13 @@ int main()
     };
     std::size_t cutTotal = 0;
     bool consumeClockSyncPending = true;
-    for (std::size_t g = 1; g < groups.size(); ++g)
+    std::vector<std::string> segs(groups.size());
+    std::vector<std::size_t> pending;     // deferred (`@`) ops waiting for the next unlock
+    bool inHook = false;
+    std::function<std::string(std::size_t)> runOp = [&](std::size_t g) -> std::string
     {
-      const std::vector<std::string>& t = groups[g];
-      if (t.empty()) { continue; }
+      std::vector<std::string> t = groups[g];
+      if (! t.empty() && ! t[0].empty() && t[0][0] == '@') { t[0].erase(0, 1); }
       std::string seg = "bad-op";
       try
       {
@@ -200,9 +231,33 @@ int main()
         }
       }
       catch (const std::exception& ex) { seg = std::string("exception:") + ex.what(); }
+      return seg;
+    };
+    auto flush = [&]()
+    {
+      if (inHook || pending.empty()) { return; }
+      inHook = true;
+      std::vector<std::size_t> todo;
+      todo.swap(pending);
+      for (std::size_t p : todo) { segs[p] = runOp(p); }
+      inHook = false;
+    };
+    g_after_unlock = flush;
+    for (std::size_t g = 1; g < groups.size(); ++g)
+    {
+      if (groups[g].empty()) { continue; }
+      if (! groups[g][0].empty() && groups[g][0][0] == '@') { pending.push_back(g); continue; }
+      segs[g] = runOp(g);
+      flush();        // the host took no mutex: the injected ops simply run after it
+    }
+    flush();
+    g_after_unlock = nullptr;
+    for (std::size_t g = 1; g < groups.size(); ++g)
+    {
+      if (groups[g].empty()) { continue; }
       if (! first) { out += ';'; }
       first = false;
-      out += seg;
+      out += segs[g];
     }
     writers.clear();
     std::cout << out << "\n";
